@@ -133,6 +133,12 @@ package shimagent
 //@ # the in-memory certificate stored under h certifies a public key that the n-th listing contains
 //@ ghost func backed(s *Server, h bytes, n int) bool = exists(j, 0 <= j && j < len(ret(Agent.List, n, 0)), sha(blobid(s.certs[h].Certificate.Key)) == pkh(listed(n, j)))
 //@ ghost func distinctKeys(ks []*agent.Key) bool = forall(p, 0 <= p && p < len(ks), forall(q, p < q && q < len(ks), kb(ks[p]) != kb(ks[q])))
+//@ # the k-th removal of the purge: the certificate removed certifies a key that the n-th listing does not contain (an orphan) ...
+//@ ghost func orphanArg(k int, n int) bool = typeof(arg(Server.remove, k, 1)) == *ssh.Certificate && pl(arg(Server.remove, k, 1)) != 0 &&
+//@   forall(j, 0 <= j && j < len(ret(Agent.List, n, 0)), pkh(listed(n, j)) != sha(blobid(arg(Server.remove, k, 1).(*ssh.Certificate).Key)))
+//@ # ... or is outside its validity window at clock t
+//@ ghost func expiredArg(k int, t int) bool = typeof(arg(Server.remove, k, 1)) == *ssh.Certificate && pl(arg(Server.remove, k, 1)) != 0 &&
+//@   !validAt(arg(Server.remove, k, 1).(*ssh.Certificate), t)
 //@ func (*Server).filter(s)
 //@   flag logged
 //@   requires s != nil && inv(s) && wheld(s) && inv2(s)
@@ -153,6 +159,9 @@ package shimagent
 //@     forall(h#bytes, old(h in dom(s.certs)) && certutil.inWindow(old(s.certs[h].Certificate.ValidAfter), old(s.certs[h].Certificate.ValidBefore),
 //@       tUnix(ret(time.Now, old(calls(time.Now)), 0))), h in dom(s.certs))
 //@   ensures [one-clock-sample-per-purge] err == nil ==> calls(time.Now) == old(calls(time.Now)) + 1
+//@   # no over-deletion: whatever the purge removes is an orphan of this listing or outside its window at the sampled clock
+//@   ensures [nothing-valid-and-backed-is-purged] err == nil ==> forall(k, old(calls(Server.remove)) <= k && k < calls(Server.remove),
+//@     orphanArg(k, l0) || expiredArg(k, tUnix(ret(time.Now, old(calls(time.Now)), 0))))
 //@   ensures [no-listed-certificate-outside-its-validity-window] err == nil ==> forall(j, 0 <= j && j < len(inAgentKeys),
 //@     okBlob(kb(inAgentKeys[j]), tUnix(ret(time.Now, old(calls(time.Now)), 0))))
 //@   ensures [no-in-memory-certificate-outside-its-validity-window] err == nil ==> forall(h#bytes, h in dom(s.certs),
@@ -183,6 +192,8 @@ package shimagent
 //@     invariant keysWF(outer(inAgentKeys))
 //@     invariant distinctKeys(outer(inAgentKeys))
 //@     invariant arr(outer(inAgentKeys)) == arr(keysInAgent) && off(outer(inAgentKeys)) == off(keysInAgent) && len(outer(inAgentKeys)) <= len(keysInAgent)
+//@     invariant calls(Server.remove) == outer(old(calls(Server.remove)))
+//@     invariant [every-listed-hash-is-filed] forall(j, 0 <= j && j <= rangeindex, pkh(listed(outer(l0), j)) in dom(publicKeys))
 //@   loop 2:
 //@     invariant len(ret(Agent.List, outer(l0), 0)) != 0
 //@     invariant [filed-hashes-come-from-the-listing] forall(x#bytes, x in dom(publicKeys), exists(j, 0 <= j && j < len(ret(Agent.List, outer(l0), 0)), x == pkh(listed(outer(l0), j))))
@@ -194,6 +205,9 @@ package shimagent
 //@     invariant distinctKeys(outer(inAgentKeys))
 //@     invariant arr(outer(inAgentKeys)) == arr(keysInAgent) && off(outer(inAgentKeys)) == off(keysInAgent) && len(outer(inAgentKeys)) <= len(keysInAgent)
 //@     invariant [tables-only-shrink] outer(forall(h#bytes, h in dom(s.certs), old(h in dom(s.certs)) && s.certs[h] == old(s.certs[h])))
+//@     invariant [every-listed-hash-is-filed] forall(j, 0 <= j && j < len(ret(Agent.List, outer(l0), 0)), pkh(listed(outer(l0), j)) in dom(publicKeys))
+//@     invariant [nothing-valid-and-backed-is-purged] calls(Server.remove) >= outer(old(calls(Server.remove))) &&
+//@       forall(k, outer(old(calls(Server.remove))) <= k && k < calls(Server.remove), orphanArg(k, outer(l0)))
 
 //@ func filterExpiredCerts(s, certsInMemory, keysInAgent)
 //@   flag inline
@@ -212,6 +226,8 @@ package shimagent
 //@     # every key still in the list is fine, or a copy of it (possibly a stale one beyond the shrunken list) is yet to be visited
 //@     invariant [no-listed-certificate-outside-its-validity-window] errs == nil ==> forall(p, 0 <= p && p < len(outer(inAgentKeys)),
 //@       okBlob(kb(keysInAgent[p]), tUnix(now)) || exists(q, rangeindex < q && q < len(keysInAgent), kb(keysInAgent[q]) == kb(keysInAgent[p])))
+//@     invariant [nothing-valid-and-backed-is-purged] calls(Server.remove) >= outer(old(calls(Server.remove))) &&
+//@       forall(k, outer(old(calls(Server.remove))) <= k && k < calls(Server.remove), orphanArg(k, outer(l0)) || expiredArg(k, tUnix(now)))
 //@   loop 2:
 //@     invariant [an-empty-listing-drops-only-what-is-outside-its-window] len(ret(Agent.List, outer(l0), 0)) == 0 ==>
 //@       forall(h#bytes, outer(old(h in dom(s.certs))), (h in dom(certsInMemory)) ||
@@ -227,6 +243,8 @@ package shimagent
 //@     invariant arr(outer(inAgentKeys)) == arr(keysInAgent) && off(outer(inAgentKeys)) == off(keysInAgent) && len(outer(inAgentKeys)) <= len(keysInAgent)
 //@     invariant [tables-only-shrink] outer(forall(h#bytes, h in dom(s.certs), old(h in dom(s.certs)) && s.certs[h] == old(s.certs[h])))
 //@     invariant [no-listed-certificate-outside-its-validity-window] errs == nil ==> forall(p, 0 <= p && p < len(outer(inAgentKeys)), okBlob(kb(outer(inAgentKeys)[p]), tUnix(now)))
+//@     invariant [nothing-valid-and-backed-is-purged] calls(Server.remove) >= outer(old(calls(Server.remove))) &&
+//@       forall(k, outer(old(calls(Server.remove))) <= k && k < calls(Server.remove), orphanArg(k, outer(l0)) || expiredArg(k, tUnix(now)))
 
 //@ func (*Server).remove(s, key)
 //@   flag logged
